@@ -1,3 +1,4 @@
 import Drv.Codec
 import Drv.Topic
 import Drv.Session
+import Drv.Broker
